@@ -95,8 +95,10 @@ XLayout(l, r, f) ==
     [] l = "F"       -> [len |-> r * f, off |-> 0, s0 |-> 1, s1 |-> r]
     [] l = "strided" -> [len |-> 4 * r * f, off |-> 2 * f, s0 |-> 4 * f, s1 |-> 2]      \* base[1::2, 0::2] of a 2r x 2f array
     [] l = "neg"     -> [len |-> r * f, off |-> IF r * f = 0 THEN 0 ELSE r * f - 1, s0 |-> -f, s1 |-> -1]  \* base[::-1, ::-1]
+    [] l = "packed"  -> [len |-> r * f, off |-> 0, s0 |-> f, s1 |-> 1]     \* the elements of "C"; realised as the field of a
+                                                                          \* packed record array (byte stride f * size + 1)
 YLayout(l, f) ==
-  CASE l \in {"C", "F"} -> [len |-> f, off |-> 0, s |-> 1]
+  CASE l \in {"C", "F", "packed"} -> [len |-> f, off |-> 0, s |-> 1]
     [] l = "strided"    -> [len |-> 2 * f + 1, off |-> 1, s |-> 2]
     [] l = "neg"        -> [len |-> f, off |-> IF f = 0 THEN 0 ELSE f - 1, s |-> -1]
 OutLayout(o, r) ==
